@@ -6,8 +6,7 @@
    crypto/x509.ParseCertificate hands to the tool (a library oracle, validated by the correspondence
    check on every generated certificate); [describe] mirrors getCertificateInfo line by line.
    [enc_ok] is RFC 5280 well-formedness as far as needed (extensions only in v3, key identifiers
-   non-empty, pathLenConstraint >= 0, OIDs non-empty) plus: no list item shown contains the list
-   separator ", " (see C03_separator_not_escaped).  Subject / issuer text is names.FromRawDN's (C15). *)
+   non-empty, pathLenConstraint >= 0, OIDs non-empty).  Subject / issuer text is names.FromRawDN's (C15). *)
 From WI Require Import Lib.Base Lib.Info Lib.Time Model.Cert Model.CertDer Proofs.CertTime Proofs.Cert Proofs.CertDer Proofs.CertDerCanon.
 From WI Require gen.CertTables.
 From Coq Require Import Permutation.
@@ -121,8 +120,8 @@ Print Assumptions C03_eku_unknown_dotted.
 (* every DNS / IP / URI / email name is present, nothing else is; grouped by kind (DNS, IP, URI,
    email), so the encoded interleaving is not preserved: a permutation again *)
 Theorem C03_san : forall c, enc_ok c = true ->
-  attr (bs "SANs") (shown c) = (if nonempty (expected_sans c) then Some (comma_join (expected_sans c)) else None) /\
-  split_list (comma_join (expected_sans c)) = expected_sans c /\
+  attr (bs "SANs") (shown c) = (if nonempty (expected_sans c) then Some (names_join (expected_sans c)) else None) /\
+  read_name_list (names_join (expected_sans c)) = expected_sans c /\
   Permutation (map san_text (filter san_reported (opt_list (e_sans c)))) (expected_sans c).
 Proof. exact sans_shown. Qed.
 Print Assumptions C03_san.
@@ -143,24 +142,27 @@ Theorem C03_san_ip_refuted_before_repair : exists c1 c2, enc_ok c1 = true /\ enc
 Proof. exact pre_ip16_refuted. Qed.
 Print Assumptions C03_san_ip_refuted_before_repair.
 
-(* not repaired, excluded by enc_ok: the separator ", " is not escaped inside a name *)
-Theorem C03_separator_not_escaped : exists c1 c2, e_sans c1 <> e_sans c2 /\
-  describe (x509_spec c1) = describe (x509_spec c2) /\ enc_ok c1 = false /\ enc_ok c2 = true.
-Proof. exact san_separator_ambiguity. Qed.
-Print Assumptions C03_separator_not_escaped.
+(* the list is written by joinNames: a name that is empty, begins with a double quote or contains the
+   separator ", " is quoted; whatever octets the names contain, the attribute reads back as the list *)
+Theorem C03_san_list_reads_back : forall ts, read_name_list (names_join ts) = ts.
+Proof. exact read_name_list_join. Qed.
+Print Assumptions C03_san_list_reads_back.
 
-(* a certificate inside RFC 5280's profile (one rfc822Name with a quoted local part) whose report reads
-   back with a name - evil.example - that is not encoded: known finding C03-separator *)
-Theorem C03_separator_invents_name : exists c v,
-  enc_ok {| e_version := e_version c; e_serial := e_serial c; e_subject := e_subject c; e_issuer := e_issuer c;
-            e_not_before := e_not_before c; e_not_after := e_not_after c; e_spki := e_spki c;
-            e_basic := e_basic c; e_key_usage := e_key_usage c; e_ekus := e_ekus c; e_sans := None;
-            e_ski := e_ski c; e_aki := e_aki c; e_sig := e_sig c |} = true /\
-  read_back (describe (x509_spec c)) = Some v /\
-  In (bs "evil.example") (w_sans v) /\
+(* before the repair (strings.Join): one dNSName "a.example, b.example" and the two names a.example,
+   b.example gave the same report ... *)
+Theorem C03_separator_refuted_before_repair : exists c1 c2, enc_ok c1 = true /\ enc_ok c2 = true /\
+  e_sans c1 <> e_sans c2 /\ describe_gen pre_quote (x509_spec c1) = describe_gen pre_quote (x509_spec c2).
+Proof. exact pre_quote_refuted. Qed.
+Print Assumptions C03_separator_refuted_before_repair.
+
+(* ... and a certificate inside RFC 5280's profile (one rfc822Name with a quoted local part) was reported
+   with a name - evil.example - that is not encoded *)
+Theorem C03_separator_invented_name_before_repair : exists c v, enc_ok c = true /\
+  attr (bs "SANs") (i_attrs (describe_gen pre_quote (x509_spec c))) = Some v /\
+  In (bs "evil.example") (split_list v) /\
   ~ In (bs "evil.example") (map san_text (opt_list (e_sans c))).
-Proof. exact separator_invents_name. Qed.
-Print Assumptions C03_separator_invents_name.
+Proof. exact pre_quote_invents_name. Qed.
+Print Assumptions C03_separator_invented_name_before_repair.
 
 (* ---- serial ---- *)
 Theorem C03_serial_decimal : forall c, enc_ok c = true ->
